@@ -1442,6 +1442,17 @@ func (d *Data) ServeHTTP(uuid dvid.UUID, ctx *datastore.VersionedCtx, w http.Res
 				server.BadRequest(w, r, err)
 				return
 			}
+			// the mask has one byte per voxel
+			numVoxels := subvol.NumVoxels()
+			if numVoxels <= 0 {
+				server.BadRequest(w, r, "illegal geometry requested: %s", subvol)
+				return
+			}
+			if numVoxels > server.MaxDataRequest {
+				server.BadRequest(w, r, "requested payload (%d bytes) exceeds this DVID server's set limit (%d)",
+					numVoxels, server.MaxDataRequest)
+				return
+			}
 			data, err := d.GetMask(ctx, subvol)
 			if err != nil {
 				server.BadRequest(w, r, err)
